@@ -25,7 +25,7 @@ Fixpoint flatten (prefix : list string) (n : node) : list (list (list (list Z)))
 Definition run_store (i : item) : list (list (list (list Z))) := flatten [] (store i).
 
 (* spectrum dictionary: names present *)
-Definition run_keys (b : bkind) (sz : osize) : list (list Z) := map codes (spectrum_keys b sz).
+Definition run_keys (b : bkind) (sz : Z) : list (list Z) := map codes (spectrum_keys b sz).
 (* grids: [wn; wl; wnwidth; wlwidth] *)
 Definition run_binned_grids (wn w : list Q) : list (list (list Z)) := map (map Qout) (@binned_grids Q QNum wn w).
 Definition run_native_grids (wn : list Q) : list (list (list Z)) := map (map Qout) (@native_grids Q QNum wn).
